@@ -649,7 +649,7 @@ def run(ctx):
     if ctx.replay:
         cases = [json.load(open(ctx.replay))['case']]
     else:
-        cases += [gen_case(rng) for _ in range(ctx.scale(70, 900))]
+        cases += [gen_case(rng) for _ in range(ctx.scale(90, 2000))]
     terms, meta = [], []
     for c in cases:
         case = strip(c)
